@@ -5,10 +5,10 @@ LEVEL = "model_checking"
 
 
 def check(run):
-    int_common.run_int(run, ["boundary", "prog", "prio"],
+    int_common.run_int(run, ["boundary", "prog", "prio", "halt"],
                        "one event per unit between instruction boundaries; the spec decides from its control state whether the unit had to be a dispatch or an instruction. "
                        "boundary = all IME x IE x IF (2048, exhaustive); prog = every program up to length 3 (4 in thorough, sampled) over {EI, DI, RETI, NOP, INC B, LD A,n, LDH (0F),A, LDH (FF),A} "
-                       "x 5 initial (IME,IE,IF) x a request raised before every machine-cycle offset; prio = two requests of different priority at different offsets around a dispatch, with and without HALT. "
+                       "x 5 initial (IME,IE,IF) x a request raised before every machine-cycle offset; prio = two requests of different priority at different offsets around a dispatch, with and without HALT; halt = HALT x IME x all IE x IF with a request after 0-8 idle cycles (waking with IME clear must not dispatch). "
                        "distinct_nontrivial = distinct (opcode, cycles, PC delta, IE, IF, raises, initial state) tuples")
 
 
